@@ -43,3 +43,8 @@ package objectsets
 //@   at teardownPhase#1 assert [C04] idx < old(len(phasesOf(objectSet)))
 //@   at teardownPhase#1 assert [C04] arg2.Name == old(slice_of("package-operator.run/apis/core/v1alpha1.ObjectSetTemplatePhase", phasesOf(objectSet))[len(phasesOf(objectSet)) - 1 - idx].Name)
 //@   ensures [C04] cleanupDone && err == nil ==> old(finalizers(clientObj(objectSet))["orphan"]) || !tdPending()
+
+//@ props C04,C14
+//@ func package-operator.run/internal/controllers/objectsets.(*GenericObjectSetController).handleDeletionAndArchival
+//@   requires [C04] !tdPending()
+//@   at FreeCacheAndRemoveFinalizer#1 assert [C04] !old(finalizers(clientObj(objectSet))["package-operator.run/cached"]) || !tdPending()
